@@ -205,7 +205,7 @@ func famPipeline(dir string, seed int64, tier string) {
 	registerExtra(pRegInt, reflect.PtrTo(reflect.TypeOf(RegPoint{})), ppRegPoint)
 	reg := coqRegistry()
 	// inputs
-	var inputs [][]sb.Token
+	var inputs, deepInputs [][]sb.Token
 	ri1, ri2 := RegInt(7), RegInt(-1)
 	rp := &RegPoint{X: 3, Y: 4}
 	directed := []any{
@@ -216,7 +216,24 @@ func famPipeline(dir string, seed int64, tier string) {
 		[]any{[]any{&rp}, &ri1, &ri1},
 		func() (any, any, int) { return &ri1, &rp, 1 },
 	}
-	for _, v := range directed {
+	// values nested deeper than any fixed frame stack an iterator might preallocate (33, 65, 129 levels ...),
+	// with a sibling next to every nested value so that a repeated or dropped subtree shows
+	for _, d := range []int{31, 32, 33, 34, 40, 64, 65, 66, 129, 130} {
+		var v any = "leaf"
+		for i := 0; i < d; i++ {
+			switch i % 3 {
+			case 0:
+				v = []any{v, i}
+			case 1:
+				v = map[string]any{"k": v, "z": i}
+			default:
+				v = []any{i, v}
+			}
+		}
+		directed = append(directed, v)
+	}
+	nShallow := 6
+	for di, v := range directed {
 		ts, err := marshalTokens(v, nil)
 		if err != nil {
 			continue
@@ -231,6 +248,10 @@ func famPipeline(dir string, seed int64, tier string) {
 			continue
 		}
 		rep.count("directed-input")
+		if di >= nShallow {
+			deepInputs = append(deepInputs, ts)
+			continue
+		}
 		inputs = append(inputs, ts)
 	}
 	for len(inputs) < 40 {
@@ -271,6 +292,51 @@ func famPipeline(dir string, seed int64, tier string) {
 			p[j] = stageSpec{kind: stageKinds[r.Intn(len(stageKinds))]}
 		}
 		programs = append(programs, p)
+	}
+	// the deep inputs through every single stage and a few longer programs (Go oracles only: the stage model's
+	// fuel constant is sized for the generated depths)
+	for di, in := range deepInputs {
+		var progs [][]stageSpec
+		for _, a := range stageKinds {
+			progs = append(progs, []stageSpec{{kind: a}})
+		}
+		for i := 0; i < 4; i++ {
+			p := make([]stageSpec, 2+r.Intn(4))
+			for j := range p {
+				p[j] = stageSpec{kind: stageKinds[r.Intn(len(stageKinds))]}
+			}
+			progs = append(progs, p)
+		}
+		for pi, prog := range progs {
+			f := hashFns[(di+pi)%2]
+			cur := in
+			var err error
+			var names []string
+			for si := range prog {
+				if prog[si].kind == "StTee3" {
+					prog[si].pick = r.Intn(3)
+				}
+				names = append(names, prog[si].kind)
+				cur, err = applyStage(&prog[si], cur, f, r)
+				if err != nil {
+					break
+				}
+			}
+			rep.Evaluations++
+			rep.count("deep-input")
+			desc := fmt.Sprintf("H=%s program=[%s] input=a value nested %d tokens deep (%d tokens)", f.name, strings.Join(names, "; "), maxDepth(in), len(in))
+			if err != nil {
+				rep.violate("C13", "pipeline-error", fmt.Sprintf("an identity-preserving pipeline failed: %v", err), desc)
+			} else if !tokensExactEq(cur, in) {
+				rep.violate("C13", "pipeline-not-identity", fmt.Sprintf("output (%d tokens) differs from the input (%d tokens)", len(cur), len(in)), desc)
+			} else {
+				h1, _ := sinkHash(in, f)
+				h2, _ := sinkHash(cur, f)
+				if !bytes.Equal(h1, h2) {
+					rep.violate("C13", "pipeline-hash", "the output's hash differs from the input's", desc)
+				}
+			}
+		}
 	}
 	for pi, prog := range programs {
 		in := inputs[pi%len(inputs)]
@@ -314,4 +380,20 @@ func famPipeline(dir string, seed int64, tier string) {
 	}
 	w.flush()
 	rep.write(dir)
+}
+
+func maxDepth(ts []sb.Token) int {
+	d, m := 0, 0
+	for _, t := range ts {
+		switch t.Kind {
+		case sb.KindArray, sb.KindObject, sb.KindMap, sb.KindTuple:
+			d++
+			if d > m {
+				m = d
+			}
+		case sb.KindArrayEnd, sb.KindObjectEnd, sb.KindMapEnd, sb.KindTupleEnd:
+			d--
+		}
+	}
+	return m
 }
